@@ -384,7 +384,7 @@ func c19Worker(c *core.Collector, x *Ctx) {
 	}
 	c.Count("paths_created_or_modified", int64(created))
 	c.Count("stored_payloads_attributed_to_their_uploader", int64(inOwn))
-	c.Floor("stored_payloads_attributed_to_their_uploader", 100)
+	c.Floor("stored_payloads_attributed_to_their_uploader", 40)
 	c.Floor("sessions", 100)
 	c.Floor("paths_created_or_modified", 10)
 }
